@@ -1,0 +1,50 @@
+//go:build verif
+
+package rewriter
+
+import (
+	"fmt"
+	"log"
+	"path/filepath"
+	"strings"
+
+	"github.com/goghcrow/go-ast-matcher"
+	"github.com/goghcrow/go-loader"
+	"github.com/goghcrow/go-matcher"
+)
+
+// CompileStages is Compile with the intermediate (unoptimised) stage kept on disk:
+// the same two passes with the same options and header, but <dstDir>_tmp is not
+// removed, and its path is returned. Verification hook, built only with -tags verif;
+// callers cross-check its <dstDir> byte for byte against the production Compile.
+func CompileStages(srcDir, dstDir string, opts ...loader.Option) (unoptimizedDir string) {
+	srcDir, err := filepath.Abs(srcDir)
+	panicIf(err)
+
+	dstDir = mustMkDir(dstDir)
+	tmpOutputDir := mustMkDir(dstDir + "_tmp")
+
+	resetLog()
+	log.SetPrefix("[rewrite] ")
+	r := mkRewriter(astmatcher.New(
+		loader.MustNew(srcDir, append(opts, loader.WithLoadDepts())...),
+		matcher.New(),
+	))
+
+	comment := fmt.Sprintf(fileComment, defaultBuildTag)
+	r.rewriteAllFiles(func(filename string, f *loader.File) {
+		filename = strings.ReplaceAll(filename, srcDir, tmpOutputDir)
+		f.WriteWithComment(filename, comment)
+	})
+
+	log.SetPrefix("[optimize] ")
+	o := mkOptimizer(astmatcher.New(
+		loader.MustNew(tmpOutputDir, append(opts, loader.WithLoadDepts(), loader.WithSuppressErrors())...),
+		matcher.New(),
+	))
+	o.optimizeAllFiles(func(filename string, f *loader.File) {
+		filename = strings.ReplaceAll(filename, tmpOutputDir, dstDir)
+		f.WriteWithComment(filename, comment)
+	})
+	return tmpOutputDir
+}
